@@ -135,6 +135,13 @@ func init() {
 				}
 				return mValue
 			})
+			// optionally a callback-less keep-alive reference exists before everybody else (it comes first
+			// when the references are notified)
+			var keepAlive interface{ Release() }
+			if vsched.Choose(2) == 1 {
+				keepAlive = e.rc.AddRef(nil)
+				vsched.CtrAdd(rcHeld, 1)
+			}
 			gI, gH, gF := &vsched.Gate{}, &vsched.Gate{}, &vsched.Gate{}
 			vsched.OnQuiescent(func() bool {
 				switch vsched.CtrAdd(xPhase, 1) {
@@ -196,6 +203,11 @@ func init() {
 			gF.Wait()
 			if vsched.Ctr(xRelCb) > 1 {
 				fail("C10.released-cb-count", "released callback fired %d times", vsched.Ctr(xRelCb))
+			}
+			if keepAlive != nil {
+				vsched.CtrAdd(rcHeld, -1)
+				keepAlive.Release()
+				vsched.Settle()
 			}
 			e.finalRelease()
 			e.setContext(nil)
@@ -364,7 +376,7 @@ func init() {
 		},
 	})
 	eng.Register(&eng.Scenario{
-		Name: "refcount-zero-value", Props: []string{"C10", "C09"}, MustFinish: true, ObsNames: stdObs,
+		Name: "refcount-zero-value", Props: []string{"C10", "C09", "C08"}, MustFinish: true, ObsNames: stdObs,
 		Doc:   "RefCount whose resolver legitimately resolves the zero value (0, nil): a ResolveWithReleased holder and an Access callback parked on that value; then (quiescence-gated) the value is invalidated by released() or SetContext(fresh) (choice) while the replacement resolver call does not return: the released callback fires exactly once and the Access callback's context is cancelled",
 		Quick: eng.Bounds{PB: 2, Delay: true}, Thorough: eng.Bounds{PB: 3, Delay: true},
 		Body: func() {
@@ -382,8 +394,16 @@ func init() {
 					<-rctx.Done() // the replacement call does not return
 					return 0, nil, context.Canceled
 				}
-				return 0, func() { vsched.CtrAdd(rcRel0+i, 1) }, nil
+				return 0, func() {
+					vsched.CtrAdd(rcRel0+i, 1)
+					// (C08) when the release function of a value runs every reference has been told it is gone
+					if vsched.Ctr(rcLastRes+5) == 2 {
+						fail("C08.ref-not-told", "release function of the (zero) value of call %d runs but the held reference was last told (true, 0)", i)
+					}
+				}, nil
 			})
+			watch := rc.AddRef(func(resolved bool, v int, err error) { vsched.CtrSet(rcLastRes+5, 1+b2i(resolved)) })
+			defer watch.Release()
 			gI, gF := &vsched.Gate{}, &vsched.Gate{}
 			vsched.OnQuiescent(func() bool {
 				switch vsched.CtrAdd(xPhase, 1) {
@@ -503,6 +523,84 @@ func init() {
 			}
 			rc.ClearContext()
 			vsched.Settle()
+		},
+	})
+
+	eng.Register(&eng.Scenario{
+		Name: "refcount-stale-released", Props: []string{"C08", "C09", "C10"}, MustFinish: true, ObsNames: stdObs,
+		Doc:   "RefCount: the first resolver call returns a value or an error (choice) and keeps its released callback; the only reference is dropped and a new one added, so a second call resolves value 102, which stays held; then the stale released() of the first call is invoked (directly or from inside a reference callback, i.e. with the mutex busy; choice): it must be ignored - value 102 is neither released nor dropped and no third resolver call starts",
+		Quick: eng.Bounds{PB: 2, Delay: true}, Thorough: eng.Bounds{PB: 3, Delay: true},
+		Body: func() {
+			firstMode := []int{mValue, mError, mErrorRel}[vsched.Choose(3)]
+			busy := vsched.Choose(2) == 1
+			e := newRC2(bg, vsched.Choose(2) == 1, first(firstMode))
+			r1 := e.rc.AddRef(refCb(0))
+			vsched.Settle()
+			r1.Release()
+			vsched.Settle()
+			r2 := e.rc.AddRef(refCb(1))
+			vsched.CtrSet(rcRefHeld+1, 1)
+			vsched.CtrAdd(rcHeld, 1)
+			vsched.Settle()
+			stale, _ := vsched.GetCell(50).(func())
+			if stale == nil || vsched.Ctr(rcCalls) < 2 {
+				// keep-unreferenced with a value: no second call was needed; nothing stale to test
+				vsched.CtrAdd(rcHeld, -1)
+				vsched.CtrSet(rcRefHeld+1, 0)
+				r2.Release()
+				e.setContext(nil)
+				vsched.Settle()
+				return
+			}
+			alsoCurrent := busy && vsched.Choose(2) == 1
+			if busy {
+				// from inside a callback of a reference that is being added: the RefCount's mutex is held
+				r3 := e.rc.AddRef(func(bool, int, error) {
+					stale()
+					if alsoCurrent {
+						// ... followed, while the mutex is still busy, by the released() of the current value
+						if cur, ok := vsched.GetCell(51).(func()); ok {
+							vsched.CtrSet(rcInv0+2, 1)
+							cur()
+						}
+					}
+				})
+				r3.Release()
+			} else {
+				stale()
+			}
+			vsched.Settle()
+			if alsoCurrent {
+				// the current value was really invalidated: dropped, released, resolved afresh
+				if vsched.Ctr(rcCalls) != 3 || vsched.Ctr(rcRel0+2) != 1 || e.target.GetValue() != valOf(3) {
+					fail("C09.invalidated-value-kept", "released() of the current value 102 (called right after a stale released(), both while the mutex was busy) was lost: resolver calls=%d, value 102 released %d times, target holds %d", vsched.Ctr(rcCalls), vsched.Ctr(rcRel0+2), e.target.GetValue())
+				}
+				e.quiescentOracle([]int{1})
+				vsched.CtrAdd(rcHeld, -1)
+				vsched.CtrSet(rcRefHeld+1, 0)
+				r2.Release()
+				vsched.Settle()
+				e.finalRelease()
+				e.setContext(nil)
+				vsched.Settle()
+				e.finalRelease()
+				return
+			}
+			if n := vsched.Ctr(rcCalls); n != 2 {
+				fail("C09.stale-released-restarts", "released() of the superseded first call made the RefCount start resolver call %d", n)
+			}
+			if vsched.Ctr(rcRel0+2) != 0 || e.target.GetValue() != valOf(2) {
+				fail("C10.released-while-held", "released() of the superseded first call released or dropped value 102, which is held and was never invalidated (released %d times, target holds %d)", vsched.Ctr(rcRel0+2), e.target.GetValue())
+			}
+			e.quiescentOracle([]int{1})
+			vsched.CtrAdd(rcHeld, -1)
+			vsched.CtrSet(rcRefHeld+1, 0)
+			r2.Release()
+			vsched.Settle()
+			e.finalRelease()
+			e.setContext(nil)
+			vsched.Settle()
+			e.finalRelease()
 		},
 	})
 
